@@ -1112,3 +1112,86 @@ SPECS["C08"]["level_text"] += (' Track hc3 (Props/C08S): the specification funct
     'is an FE FD-free piece at exactly its range delimited by stuff sequences or the stream start/end (segments_sound), every such piece is a segment '
     '(segments_complete), the segments joined by FE FD are the stream with consecutive ranges (segments_tile), and the decomposition is unique, i.e. the '
     'pieces are maximal (segments_unique).')
+
+# ---- track anch: the codecs' ANCHORED input method in the proved single-iovec vocabulary; the `_partial` restriction
+# ---- ("borrow/copy input methods only") of Props/C01W, C02W, C09W lifted by Props/C01G, C02G, C09H
+SPECS["C01"]["lean_modules"] += ["Woodpile.Props.C01G"]
+SPECS["C01"]["theorems"] += [
+    "Woodpile.Props.C01G.run_extends",
+    "Woodpile.Props.C01G.read_piece",
+    "Woodpile.Props.C01G.encWorld_no_panic",
+    "Woodpile.Props.C01G.encWorld_is_ops",
+    "Woodpile.Props.C01G.encWorld_abs_between_calls",
+    "Woodpile.Props.C01G.encWorld_abs",
+    "Woodpile.Props.C01G.enc_world_output",
+    "Woodpile.Props.C01G.world_roundtrip",
+    "Woodpile.Props.C01G.dec_world_output",
+    "Woodpile.Props.C01G.world_roundtrip_both",
+]
+SPECS["C01"]["level_text"] += (' Props/C01G (track anch) LIFTS the `_partial` restriction of Props/C01W: the call vocabulary EncWorld.ACall adds '
+    'encode_read / decode_read with an arbitrary scripted reader (= read_n into the codec\'s OWN arena, then encode_anchored / decode_anchored: '
+    'OwningIovec::push of sub-slices of the returned chunk slice — copied when small, borrowed and possibly merged otherwise — then push_anchor; '
+    'Model/EncWorld.encodeRead / decodeRead, the functions Driver/CodecW replays for the op words `feed a` and `feed_read`), and every C01W theorem is '
+    'restated over it without the suffix (run_extends: the old vocabulary is embedded). Anchored input from a FOREIGN arena is, for the iovec\'s content, '
+    'the borrow method (memory that outlives the iovec) and is covered as such. At the state-machine level the anchored method IS the borrow method '
+    '(encode_anchored calls self.encode(slice)), which is why Hcobs.Method has two constructors and Driver/Hcobs.parseMethod maps a / r to borrow. '
+    'Underneath, the single-iovec invariant IovInv (Proofs/IovecInv) now says owned slices are pairwise disjoint (not allocation-ordered) and '
+    'allows zero-count anchors; Proofs/IovecAnch has the held-arena-slice lemmas (read_n, push of held memory, push_anchor).')
+SPECS["C02"]["lean_modules"] += ["Woodpile.Props.C02G"]
+SPECS["C02"]["theorems"] += [
+    "Woodpile.Props.C02G.enc_world_no_stuff",
+    "Woodpile.Props.C02G.enc_world_split_independent",
+    "Woodpile.Props.C02G.enc_world_length_bound_prod",
+]
+SPECS["C02"]["level_text"] += (' Props/C02G (track anch) lifts the `_partial` restriction of Props/C02W: no-stuff, split/method/drain independence and the '
+    'production length bound on the structural iovec for ALL input methods (borrow, copy, anchored reads with any reader behaviour; vocabulary '
+    'EncWorld.ACall, see C01).')
+SPECS["C09"]["lean_modules"] += ["Woodpile.Props.C09H"]
+SPECS["C09"]["theorems"] += [
+    "Woodpile.Props.C09H.enc_lag_struct",
+    "Woodpile.Props.C09H.enc_lag_le_partial",
+    "Woodpile.Props.C09H.dec_lag_zero_world",
+    "Woodpile.Props.C09H.enc_drained_stable_prefix",
+    "Woodpile.Props.C09H.enc_drained_complete",
+    "Woodpile.Props.C09H.enc_slices_in_cap",
+    "Woodpile.Props.C09H.enc_lag_le",
+    "Woodpile.Props.C09H.enc_lag_le_prod",
+]
+SPECS["C09"]["level_text"] += (' Props/C09H (track anch) lifts the method restriction of Props/C09W: the exact structural lag of the encoder-driven iovec '
+    '(enc_lag_struct) and decoder lag 0 (dec_lag_zero_world) hold for ALL input methods (EncWorld.ACall: borrow, copy, anchored reads). '
+    'C09H.enc_lag_le_partial keeps the in-capacity fact as a hypothesis (as C09W, hence the name); C09H.enc_lag_le / enc_lag_le_prod DISCHARGE it for all input '
+    'methods by a direct capacity invariant along the run (Proofs/EncWorldCap): lag < S + max(maxInit,maxSub) where S is the largest chunk the arena tuning '
+    'allocates for requests up to B and every anchored read asks for at most B bytes; production tuning, reads < 2^20 bytes: lag < 2^20 + 64008 + 2 '
+    '(with anchored reads of 2^20 bytes or more the arena chunk, hence the constant, grows with the largest count requested - the property\'s "one arena chunk"). The PREFIX clause on the structural iovec '
+    '(enc_drained_stable_prefix): between the calls of any run, drained ++ bytes of the first n slices, n = Iov.stableCount (what the driver prints through), '
+    'is a prefix of Spec.encode of the whole input whatever calls follow; enc_drained_complete: nothing is lost at the end.')
+SPECS["C17"]["lean_modules"] += ["Woodpile.Props.C17W"]
+SPECS["C17"]["theorems"] += [
+    "Woodpile.Props.C17W.codec_read_n",
+    "Woodpile.Props.C17W.encode_read_spec",
+    "Woodpile.Props.C17W.encode_read_failed_bump",
+    "Woodpile.Props.C17W.read_is_feed_of_delivered",
+    "Woodpile.Props.C17W.dec_read_is_feed_of_delivered",
+]
+SPECS["C17"]["level_text"] += (' Props/C17W (track anch): the codec-level clauses. Encoder/Decoder read_n, encode_read and decode_read are Model functions now '
+    '(Model/EncWorld: readOwn, encodeRead, decodeRead - the ones Driver/CodecW replays for `feed a` / `feed_read`): the codec\'s read_n is ReadN.readNCore on the '
+    'iovec\'s own arena with ReadN.readN\'s arena effect (so read_n_spec / read_n_releases_unread apply verbatim), returns a slice of at most count bytes holding '
+    'exactly the bytes read, and leaves the iovec\'s slices and bytes untouched (codec_read_n); between the calls of any encoder run encode_read never panics, a '
+    'failed read changes nothing but the arena, whose bump pointer is back where ensure_capacity left it, and a successful one leaves the state encode of exactly '
+    'those bytes leaves (encode_read_spec, encode_read_failed_bump); in any run an encode_read / decode_read can be replaced by encode / decode of the delivered '
+    'bytes (by nothing when it failed) without changing output or verdict (read_is_feed_of_delivered, dec_read_is_feed_of_delivered).')
+SPECS["C03"]["lean_modules"] += ["Woodpile.Props.C03G"]
+SPECS["C03"]["theorems"] += [
+    "Woodpile.Props.C03G.aop_refines",
+    "Woodpile.Props.C03G.read_push_no_panic",
+    "Woodpile.Props.C03G.read_push_appends",
+    "Woodpile.Props.C03G.reachable_refines",
+    "Woodpile.Props.C03G.reachable_facts",
+]
+SPECS["C03"]["level_text"] += (' Props/C03G (track anch): the vocabulary extended with ANCHORED pushes. AOp = Op + the composite readPush (read_n into the iovec\'s own '
+    'arena with a scripted, possibly faulty reader; OwningIovec::push of the sub-slices of the returned slice selected by a cut list, in order - copied or borrowed '
+    'arena memory, merged when adjacent -; push_anchor): it never panics, preserves the structural invariant and refines append of exactly the selected pieces of '
+    'the bytes read; every AOp history from the initial world refines the abstract pipe (reachable_refines), sizes / non-empty slices / hole-free stable prefix '
+    'included (reachable_facts). For this the invariant IovInv was weakened: owned slices pairwise disjoint (not allocation-ordered), zero-count anchors allowed. '
+    'Scope: own-arena anchored slices pushed as one composite; interleaving with register_patch/backfill is the encoder\'s pattern (Props/C01G); foreign '
+    'AnchoredSlices, clone/take/arena swap remain C20\'s multi-object vocabulary.')
